@@ -150,30 +150,22 @@ structure ExtOK (E : Ext) : Prop where
 /-- the text between the quotes -/
 def encBody (x : Str) : Str := if '\n' ∈ x then longEncode x else shortEncode x
 
+/-! the regenerated tables of written forms are well-formed (re-proved on every run against the live `_quote_encode`) -/
+
+theorem short_table_wf : wfTab Tables.shortEscapes = true := by decide
+theorem long_table_wf : wfTab Tables.longEscapes = true := by decide
+/-- in a short-quoted string the quote, CR and LF are not written raw -/
+theorem short_table_raw :
+    escWith Tables.shortEscapes '"' ≠ ['"'] ∧ escWith Tables.shortEscapes '\r' ≠ ['\r'] := by decide
+
 theorem decode_encBody (x : Str) : decodeEsc (encBody x) = some x := by
   unfold encBody
   split
-  · exact decode_longEncode x
-  · next h => exact decode_shortEncode x h
+  · exact decode_longEncodeT long_table_wf x
+  · exact decode_shortEncodeT short_table_wf x
 
-theorem head_replCR_replQ : ∀ e : Str,
-    (replaceChar '\r' ['\\', 'r'] (replaceChar '"' ['\\', '"'] e)).head? ≠ some '"'
-  | [] => by simp
-  | c :: e => by
-    rw [replaceChar_cons]
-    by_cases hq : c = '"'
-    · subst hq
-      simp only [if_true, List.cons_append, List.nil_append]
-      rw [replaceChar_cons]
-      simp
-    · simp only [hq, if_false, List.cons_append, List.nil_append]
-      rw [replaceChar_cons]
-      by_cases hr : c = '\r'
-      · subst hr; simp
-      · simp only [hr, if_false, List.cons_append, List.nil_append, List.head?_cons, ne_eq, Option.some.injEq]
-        exact hq
-
-theorem head_shortEncode (x : Str) : (shortEncode x).head? ≠ some '"' := head_replCR_replQ _
+theorem head_shortEncode (x : Str) : (shortEncode x).head? ≠ some '"' :=
+  head_shortEncodeT short_table_wf short_table_raw.1 x
 
 theorem fromN3_quoteEncode (E : Ext) (nz : Bool) (x suffix : Str) (hs : '"' ∉ suffix) :
     fromN3 E nz (quoteEncode x ++ suffix) = litFromParts E nz (encBody x) suffix := by
